@@ -8,6 +8,8 @@ EXPECTED_THEOREMS = {
     "C12": ["insert_keeps_stored_key", "checked_insert_keeps_stored_key", "insert_key_value_swaps_key",
             "insert_ii_for_full_identity", "get_exposes_stored", "remove_entry_exposes_stored",
             "iteration_exposes_stored", "set_insert_keeps_stored", "set_replace_swaps"],
+    "C09": ["iter_start", "next_yields_kth", "next_none_at_end", "next_none_forever", "steps_from_start", "after_k_steps", "len_after_k_steps", "script_probes_report_len", "remaining_items", "traversal_yields_all", "traversal_projections", "two_traversals_agree", "clone_rest", "clone_continues_identically", "shared_iter_changes_nothing", "mut_iter_writes_prefix", "mut_iter_writes_all", "lookup_after_mut_iter", "iterOp_safe", "nextOut_shared", "nextOut_mut", "script_probe_after_j_steps", "script_clone_at_j", "script_clone_agrees"],
+    "C10": ["no_inj", "into_iter_next", "into_iter_next_nonempty", "into_iter_none_forever", "into_iter_take_pairs", "into_iter_take", "discarded_halves", "into_iter_all", "into_iter_partition", "into_iter_take_any_world", "into_iter_op_any_world", "into_iter_op", "drain_start", "drain_take", "drain_next_none_forever", "drain_always_empties", "drain_op", "drain_op_drop", "drain_op_forget", "drain_all", "drain_partition", "drain_then_insert", "consuming_ops_safe", "no_value_glue", "set_into_iter_op", "set_drain_op"],
     "C03": ["insert_full_absent", "insert_key_value_full_absent", "checked_insert_full_absent",
             "insert_present_on_full", "checked_insert_present_on_full", "insert_key_value_present_on_full",
             "insert_len_le_cap"],
